@@ -66,6 +66,10 @@ func (c *verifChanPC) Expire() {
 }
 func (c *verifChanPC) WriteTo(p []byte, addr net.Addr) (int, error) {
 	c.mu.Lock()
+	if c.closed > 0 {
+		c.mu.Unlock()
+		return 0, net.ErrClosed // as a real socket after Close
+	}
 	c.written = append(c.written, verifWrite{append([]byte{}, p...), addr})
 	c.mu.Unlock()
 	return len(p), nil
@@ -1416,4 +1420,59 @@ func VH_C13_address_spellings() {
 	verifSettle(func() bool { return len(done) == 5 })
 	verifAssert("C13.spellings.all-calls-return", len(done) == 5)
 	verifReach("C13.spellings.done", true)
+}
+
+// C12: a connection is waiting (accepted from the kernel, no handle is accepting yet) when one of
+// two handles is closed: it is not lost, the handle that stays open gets it
+func VH_C12_pending_connection_survives_another_handles_close() {
+	ml := NewMultiStreamListener("127.0.0.1:9321", nil)
+	h1, err1 := ml.Acquire()
+	h2, err2 := ml.Acquire()
+	verifAssert("C12.pending.acquire", err1 == nil && err2 == nil)
+	id := verifDialTCP(h1.Addr())
+	verifAssert("C12.pending.dial", id >= 0)
+	verifPause()
+	verifQuiesce() // the shared accept loop holds the connection now
+	verifAssert("C12.pending.close-ok", h1.Close() == nil)
+	r := verifAcceptAsync(h2)
+	verifSettle(func() bool { return len(r) == 1 })
+	verifAssert("C12.pending.delivered-to-the-open-handle", len(r) == 1)
+	if len(r) == 1 {
+		a := <-r
+		verifAssert("C12.pending.delivered-intact", a.err == nil && a.conn != nil && verifTCPConnID(a.conn) == id)
+	}
+	verifAssert("C12.pending.not-dropped", !verifTCPPeerClosed(id))
+	h2.Close()
+	verifQuiesce()
+	verifReach("C12.pending.done", true)
+}
+
+// C13 / C12: an address is listened on, fully released and listened on again, several times: each
+// generation accepts connections like the first
+func VH_C13_stream_listen_again() {
+	lm := NewListenerManager()
+	rounds := 3
+	for r := 0; r < rounds; r++ {
+		ln, err := lm.ListenStream("127.0.0.1:9322")
+		verifAssert("C13.again.listen", err == nil)
+		if err != nil {
+			return
+		}
+		acc := verifAcceptAsync(ln)
+		id := verifDialTCP(ln.Addr())
+		verifAssert("C13.again.not-refused|C12.again.not-refused", id >= 0)
+		verifSettle(func() bool { return len(acc) == 1 })
+		verifAssert("C13.again.manager-usable-afterwards|C12.again.delivered", len(acc) == 1)
+		if len(acc) == 1 {
+			a := <-acc
+			verifAssert("C13.again.accepted|C12.again.accepted", a.err == nil && a.conn != nil)
+			if a.conn != nil {
+				a.conn.Close()
+			}
+		}
+		verifAssert("C13.again.close", ln.Close() == nil)
+		verifQuiesce()
+		verifAssert("C12.again.nothing-running-after-release", verifBlockedIn(verifAcceptLoop) == 0)
+	}
+	verifReach("C13.again.done", true)
 }
